@@ -7,7 +7,6 @@ FAMILY = "pat"
 
 # known-finding classes (keys as in props/C09.findings.txt / KNOWN_FINDINGS.txt)
 K_G1_POS, K_G1_NEG = "K14", "K15"
-K_NODE, K_ATTRKIND, K_ATTRPOS = "K-new-C09-1", "K-new-C09-2", "K-new-C09-3"
 
 
 def T(name):
@@ -163,7 +162,7 @@ def evaluate(ctx, cases, impl, model):
                     n = next(i for i in range(len(Sx)) if i >= len(Sm) or Sm[i] != Sx[i])
                     scorr.append({"pattern": patgen.pattern_text(c["pat"]), "doc": patgen.xml_of(c["top"]), "node": n,
                                   "impl": "".join("1" if x else "0" for x in Sx), "model": "".join("1" if x else "0" for x in Sm), "c": c})
-                ctx.count("inside-guard" if G == "1111" else "outside-guard")
+                ctx.count("inside-guard" if G == "11" else "outside-guard")
         # ---- the oracle: getMatchScore against the defining expression, both from the library
         if Sx is None:
             orc.append({"case": c, "node": None, "what": "the pattern does not evaluate as an expression", "known": None})
@@ -178,13 +177,10 @@ def evaluate(ctx, cases, impl, model):
             if pm is not None:
                 wf, G, Mm, Sm = pm
                 agrees = n < len(Mm) and Mm[n] == M[n] and Sm[n] == Sx[n]
-                if agrees and G != "1111":
-                    if G[1] == "0" and pos:
-                        known = K_NODE
-                    elif G[2] == "0":
-                        known = K_ATTRKIND if pos else K_ATTRPOS
-                    elif G[0] == "0":
-                        known = K_G1_POS if pos else K_G1_NEG
+                # a known finding: outside the guard of match_iff_select_partial, and exactly the
+                # behaviour of the (faithful) model; anything else that fails is a violation
+                if agrees and G[0] == "0":
+                    known = K_G1_POS if pos else K_G1_NEG
             orc.append({"case": c, "node": n, "what": what, "known": known})
     ctx.cov["distinct_nontrivial"] = ctx.cov.get("distinct_nontrivial", 0) + len(seen)
     return corr, scorr, orc
